@@ -27,9 +27,9 @@ SYMS = {'eq': '=', 'ne': '!=', 'lt': '<', 'le': '<=', 'gt': '>', 'ge': '>='}
 CFGS = ['v20', 'v30', 'v31', 'c20', 'c31', 'c10']
 DOC = '<r><a>1</a><b>abc</b></r>'
 NODE_PATH = {'1': '/r/a', 'abc': '/r/b'}
-TIERS = {
-    'quick': dict(MaxLen=2, Wide=True),
-    'thorough': dict(MaxLen=3, Wide=True),
+TIERS = {       # operand sequences up to MaxLen; EBV/logic operands always up to 2 items
+    'quick': {'Compare': dict(MaxLen=2, Wide=True), 'Logic': dict(MaxLen=2, Wide=True)},
+    'thorough': {'Compare': dict(MaxLen=3, Wide=True), 'Logic': dict(MaxLen=2, Wide=True)},
 }
 CTORS = {'str': 'xs:string', 'unt': 'xs:untypedAtomic', 'uri': 'xs:anyURI', 'qn': 'xs:QName', 'date': 'xs:date',
          'dt': 'xs:dateTime', 'time': 'xs:time', 'ymd': 'xs:yearMonthDuration', 'dtd': 'xs:dayTimeDuration',
@@ -186,7 +186,10 @@ def evaluate(text: str, cfg: str) -> str:
     st = setup()
     cls, kw = st['cfg'][cfg]
     try:
-        r = elementpath.select(st['root'] if '/r/' in text else None, text, parser=cls, **kw)
+        if '/r/' in text:
+            r = elementpath.select(st['root'], text, parser=cls, **kw)
+        else:                      # no node operand: no document needed (the context item is never used)
+            r = elementpath.select(None, text, item=0, parser=cls, **kw)
     except ElementPathError as e:
         return (e.code or '?').split(':')[-1]
     except RecursionError:
@@ -402,7 +405,7 @@ def run(chk: core.Check) -> None:
     for module, spec, inv in (('Compare', 'Spec', 'GeneralLaws'), ('Logic', 'LSpec', 'LogicLaws')):
         wd = os.path.join(chk.scratch, module)
         dot = os.path.join(wd, 'g.dot')
-        cfg = tla.cfg_text(consts, spec=spec, invariants=[inv])
+        cfg = tla.cfg_text(consts[module], spec=spec, invariants=[inv])
         r = tla.require_ok(tla.run_tlc(module, cfg, wd, dump_dot=dot), f'{module}/{chk.tier}', min_distinct=1000)
         chk.model(f'{module}/{chk.tier}', r)
         g = tla.load_dot(dot)
